@@ -2,5 +2,6 @@
 # (rt.N(quick, thorough) per sub-check, per shard); this table only says how
 # to build and shard.
 CHECKS = {
+    "C01": dict(pkg="./c01", shards=16),
     "C02": dict(pkg="./c02", shards=16),
 }
